@@ -287,6 +287,11 @@ func runC09P(r *simkit.Run, c Cfg) {
 							return
 						}
 						pd = watcherQ[0]
+						if want := "watcher " + nameOf(pd.src); p.Who != want {
+							r.Violate("c09.self", "the watcher asked to allow %q while the only gossip announcement outstanding is %s (%s): a message nobody but the receiver itself published was processed, or an announcement was attributed to the wrong peer", p.Who, pd.kind, want)
+							r.Release(p, nil)
+							return
+						}
 						watcherQ = watcherQ[1:]
 					} else {
 						pd = directQ[p.GID]
@@ -392,6 +397,12 @@ func runC09P(r *simkit.Run, c Cfg) {
 	r.State(fmt.Sprintf("delivered=%d resend=%v", len(expect), resend))
 	stop = true
 	r.PassThrough(true)
+	// the watcher may be parked in the allow callback (after a violation);
+	// Close waits for it, so release everything first
+	for _, p := range r.AllParked() {
+		r.Release(p, nil)
+	}
+	r.Quiesce()
 	rc.Close()
 	sndS.Close()
 	tsub.Cancel()
